@@ -1,9 +1,129 @@
-(* Properties/C06.v — property theorems only. *)
+(* Properties/C06.v — property theorems only; every proof is [exact <lemma>] (lemmas in Proofs/).
+
+   C06 "Time triggers fire at exactly the instants their specification denotes" (claimed partial).
+
+   FULL STATEMENT: for every list of specifications of the documented grammar (once / period with or without end /
+   cron; dates full, month/day, weekday, today/tomorrow, omitted; times h:m[:s[.f]], noon, midnight, sunrise, sunset,
+   now; offsets), every current time and startup time, in every time zone:
+        next_list specs now su = Some t  ->  now < t /\ some spec denotes t /\ nothing denoted strictly between,
+        next_list specs now su = None    ->  nothing later is denoted;
+   hence successive trigger times strictly increase and the answer does not change between occurrences.
+
+   PROVED HERE (names end in _partial): exactly that statement,
+     * for the Model with the deviations D61, D64 (and the float effect D63) switched off,
+     * for all specifications without sunrise/sunset whose month/day exists in every year ([in_fragment]; a time-only
+       period start under the quantifier's own side condition start < interval, interval | 24 h; daily windows with both
+       times of day inside [0, 24 h)),
+     * cron() through croniter's contract [cron_ok] and for current times that are real readings of the local clock
+       [real_now],
+     * period() instants either on the naive local scale (what the code does, D60) or on the elapsed scale in zones
+       without transitions ([tz_const]); for elapsed spacing across a DST change see C06_refuted_D60.
+   What is only validated against the running code: regex parsing, croniter, astral, zoneinfo, float rounding, sleeping. *)
 From Coq Require Import ZArith List Bool.
-From PV Require Import Common.Civil Time.DtExpr Time.Next Time.NextCheck Gen.TimeConsts Proofs.Civil Proofs.TimeNext.
+From PV Require Import Common.Civil Time.DtExpr Time.Next Time.NextCheck Gen.TimeConsts.
+From PV Require Import Proofs.Civil Proofs.TimeNext Proofs.TimeNextMain Proofs.TimeNextExamples.
 Import ListNotations.
 Local Open Scope Z_scope.
 
+(* T1: the unit table regenerated from parse_time_offset is the documented one (seconds ... weeks, with abbreviations) *)
 Theorem C06_unit_table_documented : unit_scale_table = doc_scale_table.
 Proof. exact unit_table_documented. Qed.
 Print Assumptions C06_unit_table_documented.
+
+Theorem C06_dither_lists : dither_undated = [-1; 0; 1] /\ dither_dated = [0].
+Proof. exact dither_lists. Qed.
+Print Assumptions C06_dither_lists.
+
+(* the next trigger time is the earliest denoted instant strictly after the current time (or the startup instant itself
+   for a specification that names it), none if nothing later is denoted; minimum over the list *)
+Theorem C06_next_is_successor_partial :
+  forall (scale : N -> Z) (sun : Z -> bool -> option Z) (cron_next : cronx -> Z -> Z) (lu ul : Z -> Z) (cfg : deviations),
+  d_once_md_this_year cfg = false -> d_su_coincidence cfg = false ->
+  d_period_wallclock cfg = true \/ tz_const lu ul ->
+  forall (specs : list tspec) (now su : Z),
+  specs_ok scale cron_next lu specs now ->
+  exists r, next_list scale sun cron_next lu ul cfg false specs now su = ROk r /\
+    match r with
+    | Some (t, _) =>
+        (now < t \/ (t = now /\ now = su)) /\
+        (exists s, In s specs /\ denotes scale sun lu ul (negb (d_period_wallclock cfg)) s su now t) /\
+        (forall t', now < t' -> t' < t -> forall s, In s specs -> ~ denotes scale sun lu ul (negb (d_period_wallclock cfg)) s su now t')
+    | None => forall t', now < t' -> forall s, In s specs -> ~ denotes scale sun lu ul (negb (d_period_wallclock cfg)) s su now t'
+    end.
+Proof. exact next_list_successor_full. Qed.
+Print Assumptions C06_next_is_successor_partial.
+
+(* successive trigger times strictly increase (every later evaluation happens at or after the previous trigger time) *)
+Theorem C06_strictly_increasing_partial :
+  forall (scale : N -> Z) (sun : Z -> bool -> option Z) (cron_next : cronx -> Z -> Z) (lu ul : Z -> Z) (cfg : deviations),
+  d_once_md_this_year cfg = false -> d_su_coincidence cfg = false ->
+  d_period_wallclock cfg = true \/ tz_const lu ul ->
+  forall (specs : list tspec) (now now' su t a t' a' : Z),
+  specs_ok scale cron_next lu specs now' ->
+  next_list scale sun cron_next lu ul cfg false specs now su = ROk (Some (t, a)) ->
+  t <= now' -> now' <> su ->
+  next_list scale sun cron_next lu ul cfg false specs now' su = ROk (Some (t', a')) ->
+  t < t'.
+Proof. exact next_strictly_increasing. Qed.
+Print Assumptions C06_strictly_increasing_partial.
+
+(* no instant is skipped or repeated: re-evaluating anywhere before the next occurrence gives the same occurrence
+   (for lists whose denotation does not move with the current time, e.g. no today/tomorrow/weekday crossing midnight) *)
+Theorem C06_idempotent_between_partial :
+  forall (scale : N -> Z) (sun : Z -> bool -> option Z) (cron_next : cronx -> Z -> Z) (lu ul : Z -> Z) (cfg : deviations),
+  d_once_md_this_year cfg = false -> d_su_coincidence cfg = false ->
+  d_period_wallclock cfg = true \/ tz_const lu ul ->
+  forall (specs : list tspec) (now now' su t a : Z),
+  specs_ok scale cron_next lu specs now -> specs_ok scale cron_next lu specs now' ->
+  (forall x, denotes_any scale sun lu ul (negb (d_period_wallclock cfg)) specs su now x <->
+             denotes_any scale sun lu ul (negb (d_period_wallclock cfg)) specs su now' x) ->
+  next_list scale sun cron_next lu ul cfg false specs now su = ROk (Some (t, a)) ->
+  now <= now' -> now' < t -> now' <> su ->
+  exists a', next_list scale sun cron_next lu ul cfg false specs now' su = ROk (Some (t, a')).
+Proof. exact next_idempotent_between. Qed.
+Print Assumptions C06_idempotent_between_partial.
+
+(* the hypotheses are satisfiable: a list with a daily once(), a self-consistent time-only period(), a now-based closed
+   period(), a yearly once(), a daily window over midnight and cron(* * * * *) with its successor function *)
+Theorem C06_hypotheses_inhabited : forall now,
+  specs_ok sc next_minute est_lu ex_specs now /\ tz_const est_lu est_ul /\ cron_ok next_minute every_minute.
+Proof. exact (fun now => conj (ex_specs_ok now) (conj est_const every_minute_ok)). Qed.
+Print Assumptions C06_hypotheses_inhabited.
+
+(* calendar library: both round trips *)
+Theorem C06_civil_roundtrip : forall n, let '(y, m, d) := civil_from_days n in days_from_civil y m d = n /\ valid_date y m d = true.
+Proof. exact civil_from_days_spec. Qed.
+Print Assumptions C06_civil_roundtrip.
+
+Theorem C06_civil_roundtrip_inv : forall y m d, valid_date y m d = true -> civil_from_days (days_from_civil y m d) = (y, m, d).
+Proof. exact civil_from_days_from_civil. Qed.
+Print Assumptions C06_civil_roundtrip_inv.
+
+Theorem C06_datetime_roundtrip : forall t, datetime_to_us (us_datetime t) = t.
+Proof. exact datetime_to_us_of_us. Qed.
+Print Assumptions C06_datetime_roundtrip.
+
+(* ---------- the unchanged code violates the property: one witness per deviation ---------- *)
+Theorem C06_refuted_D60 : exists specs now su r,
+  next_list sc nosun next_minute (tz_lu ny2024) (tz_ul ny2024) (only 60) false specs now su = ROk r /\
+  ~ successor_of (denotes_any sc nosun (tz_lu ny2024) (tz_ul ny2024) true specs su now) now su r.
+Proof. exact refuted_D60. Qed.
+Print Assumptions C06_refuted_D60.
+
+Theorem C06_refuted_D61 : exists specs now su r,
+  next_list sc nosun next_minute est_lu est_ul (only 61) false specs now su = ROk r /\
+  ~ successor_of (denotes_any sc nosun est_lu est_ul true specs su now) now su r.
+Proof. exact refuted_D61. Qed.
+Print Assumptions C06_refuted_D61.
+
+Theorem C06_refuted_D63 : exists specs now su r,
+  next_list sc nosun next_minute est_lu est_ul (only 63) true specs now su = ROk r /\
+  ~ successor_of (denotes_any sc nosun est_lu est_ul true specs su now) now su r.
+Proof. exact refuted_D63. Qed.
+Print Assumptions C06_refuted_D63.
+
+Theorem C06_refuted_D64 : exists specs now su r,
+  next_list sc nosun next_minute est_lu est_ul (only 64) false specs now su = ROk r /\
+  ~ successor_of (denotes_any sc nosun est_lu est_ul true specs su now) now su r.
+Proof. exact refuted_D64. Qed.
+Print Assumptions C06_refuted_D64.
